@@ -133,9 +133,10 @@ class IndicatorTardiness(Indicator):
             # tardiness in terms of time units
             weighted_tardiness_v.append(
                 z3.If(
-                    z3.And(t.due_date >= t._end, t._scheduled),
-                    0,
+                    # a task that is not scheduled is not tardy
+                    z3.And(t._end > t.due_date, t._scheduled),
                     (t._end - t.due_date) * t.priority,
+                    0,
                 )
             )
         expression = z3.Sum(weighted_tardiness_v)
@@ -160,7 +161,14 @@ class IndicatorEarliness(Indicator):
             self.name = f"Earliness({','.join(t.name for t in self.list_of_tasks)})"
         earliness_v = []
         for t in tasks:
-            earliness_v.append(z3.If(t.due_date - t._end >= 0, t.due_date - t._end, 0))
+            earliness_v.append(
+                z3.If(
+                    # a task that is not scheduled is not early
+                    z3.And(t.due_date - t._end >= 0, t._scheduled),
+                    t.due_date - t._end,
+                    0,
+                )
+            )
         expression = z3.Sum(earliness_v)
         self.append_z3_assertion(self._indicator_variable == expression)
 
@@ -181,7 +189,7 @@ class IndicatorNumberOfTardyTasks(Indicator):
             )
         tardiness_v = []
         for t in tasks:
-            tardiness_v.append(t._end > t.due_date)
+            tardiness_v.append(z3.And(t._end > t.due_date, t._scheduled))
         number_of_tardy_tasks = z3.Sum(tardiness_v)
         self.append_z3_assertion(self._indicator_variable == number_of_tardy_tasks)
 
